@@ -67,8 +67,8 @@ Theorem C05_hinv_valid : forall m objs pads, hinv m objs pads -> valid_message (
 Proof. exact hinv_valid. Qed.
 Print Assumptions C05_hinv_valid.
 
-(* every step of the sub-language keeps the invariant and "every valid pool handle is a view of
-   the object table" *)
+(* every step of the sub-language keeps the invariant, "every valid pool handle is a view of
+   the object table" and "the table holds handle cores" *)
 Theorem C05_step_hinv : forall e st objs pads o st' out,
   sinv st objs pads -> sub_op o = true -> plain_src st o -> bstep e st o = (Some st', out) ->
   nsegs (w_dst (st_w st')) < 4294967296 ->
@@ -94,12 +94,14 @@ Theorem C05_sublang_example :
 Proof. exact sublang_example. Qed.
 
 (* non-vacuity of the extended sub-language: NewCompositeList, List.Struct member used as data
-   and pointer container, PointerList.Set, typed setter on the composite list, SetRoot; all
-   premises of C05_heap_inv_sublang hold for this program and the computed verdicts agree *)
+   and pointer container, PointerList.Set, typed setter on the composite list, SetRoot, handles
+   read back (Root, Struct.Ptr, PointerList.At), a capability, reopen, a member of a UInt16 list
+   stored through SetPtr (copied into a fresh padded struct); all premises of
+   C05_heap_inv_sublang hold for this program and the computed verdicts agree *)
 Theorem C05_sublang_example2 :
   create (ArMulti None) (init_rlimit (mkCfg 0 0 true true)) = Ok ex2_m /\
   sub_prog ex2_ops = true /\
   plain_run ex2_env ex2_st0 ex2_ops /\
   Forall seg_bound (bstates ex2_env ex2_st0 ex2_ops) /\
-  map (fun st => valid_message (bm_data (w_dst (st_w st)))) (bstates ex2_env ex2_st0 ex2_ops) = repeat VOk 12.
+  map (fun st => valid_message (bm_data (w_dst (st_w st)))) (bstates ex2_env ex2_st0 ex2_ops) = repeat VOk 24.
 Proof. exact sublang_example2. Qed.
